@@ -77,6 +77,8 @@ type thread struct {
 	panicVal   interface{}
 	ops        uint32 // operations completed (for signatures)
 	sig        uint64 // rolling hash of completed operations
+	name       uint64 // schedule-independent name: hash of (parent's name, parent's spawn count)
+	spawned    uint32
 }
 
 // Chooser is asked at every scheduling decision. kind: 0 = which thread runs (n enabled
@@ -98,13 +100,16 @@ var (
 	nClosed  int
 	joinWG   gosync.WaitGroup
 
+	sigOverflow bool
+
 	// AtomicPoints makes every vatomic operation a scheduling point.
 	AtomicPoints bool
 
 	// per-object version counters for happens-before signatures
 	objTab [512]struct {
-		p unsafe.Pointer
-		v uint32
+		p    unsafe.Pointer
+		v    uint32
+		name uint64
 	}
 	nObj int
 )
@@ -152,24 +157,42 @@ func isClosed(p unsafe.Pointer) bool {
 	return false
 }
 
+const fnvPrime = 1099511628211
+
 //go:norace
-func objVersion(p unsafe.Pointer, bump bool) uint32 {
+func mix(h, v uint64) uint64 { return (h ^ v) * fnvPrime }
+
+// objTouch returns the schedule-independent name of the object and its version before
+// this operation, then bumps the version. An object is named after its first toucher
+// (that thread's name and operation count): deterministic threads with equal histories
+// touch the same objects, so equal signatures imply equal naming.
+//
+//go:norace
+func objTouch(me int, p unsafe.Pointer) (uint64, uint32) {
 	for i := 0; i < nObj; i++ {
 		if objTab[i].p == p {
 			v := objTab[i].v
-			if bump {
-				objTab[i].v++
-			}
-			return v
+			objTab[i].v++
+			return objTab[i].name, v
 		}
 	}
 	if nObj < len(objTab) {
 		objTab[nObj].p = p
-		objTab[nObj].v = 0
-		if bump {
-			objTab[nObj].v = 1
-		}
+		objTab[nObj].v = 1
+		objTab[nObj].name = mix(mix(14695981039346656037, T[me].name), uint64(T[me].ops)+77)
 		nObj++
+		return objTab[nObj-1].name, 0
+	}
+	sigOverflow = true
+	return 0, 0
+}
+
+//go:norace
+func objName(p unsafe.Pointer) uint64 {
+	for i := 0; i < nObj; i++ {
+		if objTab[i].p == p {
+			return objTab[i].name
+		}
 	}
 	return 0
 }
@@ -202,6 +225,8 @@ func Begin(c Chooser, horizon int) {
 	}
 	nT = 1
 	T[0].state = stRunning
+	T[0].name = 1
+	sigOverflow = false
 	cur = 0
 	chooser = c
 	steps = 0
@@ -242,7 +267,8 @@ func spawn(site string, lib bool, f func()) int {
 	me := cur
 	id := nT
 	nT++
-	T[id] = thread{state: stParked, pending: opResume, lib: lib, site: site}
+	T[me].spawned++
+	T[id] = thread{state: stParked, pending: opResume, lib: lib, site: site, name: mix(mix(1469598103934665603, T[me].name), uint64(T[me].spawned))}
 	joinWG.Add(1)
 	go threadMain(id, f)
 	// spawning is a scheduling point: the child may run first
@@ -524,18 +550,34 @@ func sign(me int, k opKind, p unsafe.Pointer) {
 	if obj == nil {
 		obj = t.obj
 	}
-	v := uint32(0)
+	var on uint64
+	var v uint32
 	if obj != nil {
-		v = objVersion(obj, true)
+		on, v = objTouch(me, obj)
 	}
-	t.ops++
 	h := t.sig
-	h = (h ^ uint64(k)) * 1099511628211
-	h = (h ^ uint64(v)) * 1099511628211
+	h = mix(h, uint64(k))
+	h = mix(h, on)
+	h = mix(h, uint64(v))
 	if t.pending == opSelect {
-		h = (h ^ uint64(t.selIdx+2)) * 1099511628211
+		h = mix(h, uint64(t.selIdx+2))
+	}
+	if t.partner >= 0 {
+		// a rendezvous: both sides record each other
+		pn := T[t.partner].name
+		h = mix(h, pn)
+		pt := &T[t.partner]
+		ph := pt.sig
+		ph = mix(ph, uint64(pt.pending)+100)
+		ph = mix(ph, on)
+		ph = mix(ph, uint64(v))
+		ph = mix(ph, uint64(pt.selIdx+2))
+		ph = mix(ph, t.name)
+		pt.sig = ph
+		pt.ops++
 	}
 	t.sig = h
+	t.ops++
 }
 
 // enter publishes an operation and waits to be chosen. It returns the calling thread's id
@@ -833,20 +875,34 @@ func Yield() {
 	}
 }
 
-// StateSig returns a digest of the happens-before state: per-thread signatures of the
-// operations completed so far plus each parked thread's pending operation. Equal digests
-// at two scheduling points mean equal partial orders, hence equal states.
+// StateSig returns a digest of the happens-before state: for every thread (identified by
+// its schedule-independent name) the signature of the operations it completed and its
+// pending operation. Equal digests at two scheduling points mean equal partial orders of
+// synchronisation operations, hence equal states and equal futures. ok is false when the
+// object table overflowed (then no pruning may be based on the digest).
 //
 //go:norace
-func StateSig() uint64 {
-	h := uint64(1469598103934665603)
+func StateSig() (sig uint64, ok bool) {
+	var sum uint64
 	for i := 0; i < nT; i++ {
 		t := &T[i]
-		h = (h ^ t.sig) * 1099511628211
-		h = (h ^ uint64(t.state)) * 1099511628211
-		h = (h ^ uint64(t.pending)) * 1099511628211
+		h := mix(14695981039346656037, t.name)
+		h = mix(h, t.sig)
+		h = mix(h, uint64(t.state))
+		h = mix(h, uint64(t.pending))
+		if t.pending == opSelect {
+			for k := 0; k < t.ncases; k++ {
+				h = mix(h, objName(t.cases[k].ch)+uint64(k))
+			}
+		} else if t.obj != nil {
+			h = mix(h, objName(t.obj))
+		}
+		if t.panicked {
+			h = mix(h, 99)
+		}
+		sum += h * (h | 1)
 	}
-	return h
+	return sum, !sigOverflow
 }
 
 // Cur returns the id of the running thread.
